@@ -21,11 +21,15 @@ Offer(e) ==
     deliveredExactly |-> e.delivered => (e.dkeys = e.accepted /\ e.dequal /\ e.transfer = "correct"),
     countMismatchDiscarded |-> e.transfer \in {"short", "long"} => ~e.delivered ]
 Late(e) == [ deliveredExactly |-> e.delivered => (e.dkeys = e.accepted /\ e.dequal) ]
+\* of.real = an offer SENT by a real node (production offer path) of which the receiver declined some keys: what reaches the
+\* receiver's validation queue is the accepted keys (in range, not stored: expect), in order, each with its own content
+Real(e) == [ deliveredExactly |-> e.delivered => (e.dkeys = e.expect /\ e.dequal) ]
 Init == l = 1 /\ viol = {}
 Next == /\ l <= Len(Trace) /\ l' = l + 1
         /\ LET e == Trace[l] IN
            CASE e.ev = "of.offer" -> viol' = viol \cup {<<l, f>> : f \in Failed(Offer(e))}
              [] e.ev = "of.late" -> viol' = viol \cup {<<l, f>> : f \in Failed(Late(e))}
+             [] e.ev = "of.real" -> viol' = viol \cup {<<l, f>> : f \in Failed(Real(e))}
              [] OTHER -> UNCHANGED viol
 Spec == Init /\ [][Next]_<<l, viol>>
 Done == l = Len(Trace) + 1
